@@ -1,6 +1,6 @@
 (** C05 - tail calls run in constant space; deep recursion ends cleanly: property theorems only. *)
 From Coq Require Import ZArith List Bool Arith.
-From ChibiV Require Import C03.Defs C03.Model C05.Spec C05.Model C05.Proofs C05.Frames C05.Apply C05.Context C05.Examples.
+From ChibiV Require Import C03.Defs C03.Model C05.Spec C05.Model C05.Proofs C05.Frames C05.Apply C05.Context C05.Examples C05.Depth C05.DepthProofs C05.DepthGen C05.ApplyRun C05.DepthStack.
 Import ListNotations.
 
 (** the code generator emits TAIL-CALL exactly at the application sites R7RS 3.5 puts in tail
@@ -147,3 +147,81 @@ Theorem apply_exit_pinned_refuted : forall c0 per n c k k',
   fst (apply_deep false c0 per n (snd (apply_deep false c0 per n c k)) k') = false.
 Proof. exact Context.apply_exit_pinned_refuted. Qed.
 Print Assumptions apply_exit_pinned_refuted.
+
+(** the static operand-depth bound (what sexp_bytecode_max_depth stands for), as a checked certificate
+    (C05/Depth.v [cert_ok]: per instruction index the height of the frame above its 4-slot header): inside a
+    body whose certificate checks, every instruction that neither calls nor returns finds the operands it
+    pops above the header and never writes the header - the premise [step_ok] of tail_run_bounded -, stays
+    in the body and arrives at the certified depth of its successor.  The checker runs (extracted) on the
+    real bytecode of every program of the check and on the model generator's code. *)
+Theorem certified_step_above_header : forall s s' i ds,
+  cert_ok (code_of (self s)) ds = true -> Inv ds s ->
+  nth_error (code_of (self s)) (ip s) = Some i -> is_ctl i = false -> step s = Next s' ->
+  step_ok s /\ self s' = self s /\ Inv ds s'.
+Proof. exact DepthProofs.certified_step. Qed.
+Print Assumptions certified_step_above_header.
+
+(** hence the "operands above the header" premise of tail_run_bounded is discharged by a STATIC property of
+    the code: n steps none of which is a CALL or a return, every TAIL-CALL entering a procedure whose body has
+    a certificate, form a [run_ok] *)
+Theorem certified_run_ok : forall n s s' ds,
+  cert_ok (code_of (self s)) ds = true -> Inv ds s -> run_cert n s s' -> run_ok n s s'.
+Proof. exact DepthProofs.certified_run_ok. Qed.
+Print Assumptions certified_run_ok.
+
+(** "space bounded by a constant", for ALL n: such a run keeps the frame base b and never stands higher than
+    fp + 4 + max_depth of the running body's certificate (fp = b + argument count of the running frame).
+    _partial: the run relation asks at every TAIL-CALL that the procedure entered has a certified body - true of
+    every body the generator emits (generated_code_certified below), but that every procedure value a running
+    program can reach IS generator output is not proved here; CALL/RET are not part of the run. *)
+Theorem tail_loop_space_bounded_partial : forall n s s' ds b,
+  cert_ok (code_of (self s)) ds = true -> Inv ds s -> base_of s = Some b -> run_cert n s s' ->
+  base_of s' = Some b /\
+  exists ds', cert_ok (code_of (self s')) ds' = true /\ length (stk s') <= fp s' + 4 + max_depth ds'.
+Proof. exact DepthProofs.tail_loop_space_bounded. Qed.
+Print Assumptions tail_loop_space_bounded_partial.
+
+(** every code body the code generator emits has a depth certificate: for EVERY lambda whose body has the
+    shape the analyser produces (sequences non-empty, primitives applied to their number of operands), in every
+    compilation context, the code stored in PUSH-procedure / MAKE-PROCEDURE - locals, boxing prologue, body in
+    tail context, RET - keeps every operand above the frame header and LOCAL-SET off the header *)
+Theorem generated_code_certified : forall svs cur id ps r ls sv fv b fl n c,
+  shape_ok b = true ->
+  In (IPushProc fl n c) (generate false svs cur (Lam id ps r ls sv fv b)) \/
+  In (IMakeProc fl n c) (generate false svs cur (Lam id ps r ls sv fv b)) ->
+  exists ds, cert_ok c ds = true.
+Proof. exact DepthGen.lambda_body_certified. Qed.
+Print Assumptions generated_code_certified.
+
+(** ... and so has the thunk every top-level form is compiled to *)
+Theorem toplevel_code_certified : forall e, shape_ok (annotate e) = true ->
+  exists ds, cert_ok (compile_toplevel e) ds = true.
+Proof. exact DepthGen.toplevel_certified. Qed.
+Print Assumptions toplevel_code_certified.
+
+(** the shape hypothesis is part of C03's well-formedness of analyser output (checked on every real AST) *)
+Theorem analysed_ast_has_shape : forall e sc, wf sc e = true -> shape_ok e = true.
+Proof. exact DepthGen.wf_shape. Qed.
+Print Assumptions analysed_ast_has_shape.
+
+(** APPLY1 inside the run relation: for ALL n, n steps each of which is a TAIL-CALL, an instruction working
+    above the header, or an APPLY1 (loops iterating through [apply], alone or mixed with direct tail calls)
+    keep the frame base *)
+Theorem tail_run_bounded_with_apply : forall n s s' b,
+  base_of s = Some b -> run_okA n s s' -> base_of s' = Some b.
+Proof. exact ApplyRun.tail_run_bounded_with_apply. Qed.
+Print Assumptions tail_run_bounded_with_apply.
+
+(** what sexp_ensure_stack(max_depth+64) in make_call is for (with both stack fixes): if the check that precedes a
+    procedure's entry asked for at least the certified depth of its body + the 4 header slots and let execution
+    go on, then for ALL n, after n steps inside that body (up to its next call or return) the stack still ends
+    strictly inside the (possibly grown) stack object, whose length never exceeds the maximum.  The check compares
+    the real sexp_bytecode_max_depth with the certified depth of the real bytecode (F-C05-3 was a shortfall). *)
+Theorem certified_body_fits_stack : forall n s s' ds nreq len len',
+  cert_ok (code_of (self s)) ds = true -> Inv ds s -> run_body n s s' ->
+  (Z.of_nat (max_depth ds) + 4 <= nreq)%Z ->
+  (Z.of_nat (fp s) < len)%Z -> (len <= MAX_STACK_SIZE)%Z ->
+  ensure_stack true (Z.of_nat (fp s)) nreq len = Enough len' ->
+  (Z.of_nat (length (stk s')) < len')%Z /\ (len' <= MAX_STACK_SIZE)%Z.
+Proof. exact DepthStack.certified_body_fits_stack. Qed.
+Print Assumptions certified_body_fits_stack.
